@@ -58,6 +58,17 @@ class AbstractBlock(CborArray):
     crc_value_name = 'crc_value'
     ''' The name of the CRC-value field. '''
 
+    def do_dissect(self, s):
+        rem = CborArray.do_dissect(self, s)
+        # Keep the items as received, the CRC covers them and not the
+        # (type-coerced) field values decoded from them
+        while isinstance(s, cbor2.CBORTag):
+            s = s.value
+        self._rx_items = list(s)
+        # Items beyond the last field, there is no place for them in a block
+        self._rx_extra = bool(rem)
+        return rem
+
     def fill_fields(self):
         ''' Fill all fields so that the block is the full size it needs
         to be for encoding encoding with build().
@@ -83,6 +94,9 @@ class AbstractBlock(CborArray):
         else:
             crc_value = self.fields.get(self.crc_value_name)
             if not keep_existing or crc_value is None:
+                # No longer the block as it was received
+                self._rx_items = None
+                self._rx_extra = False
                 defn = AbstractBlock.CRC_DEFN[crc_type]
                 # Encode with a zero-valued CRC field
                 self.fields[self.crc_value_name] = defn['encode'](0)
@@ -102,16 +116,22 @@ class AbstractBlock(CborArray):
         crc_type = self.getfieldval(self.crc_type_name)
         crc_value = self.fields.get(self.crc_value_name)
         if crc_type == 0:
-            valid = crc_value is None
+            valid = crc_value is None and not getattr(self, '_rx_extra', False)
         else:
             defn = AbstractBlock.CRC_DEFN[crc_type]
-            # Encode with a zero-valued CRC field
-            self.fields[self.crc_value_name] = defn['encode'](0)
-            pre_crc = cbor2.dumps(self.build())
+            rx_items = getattr(self, '_rx_items', None)
+            if rx_items:
+                # Received block, the CRC field is the last item
+                pre_crc = cbor2.dumps(rx_items[:-1] + [defn['encode'](0)])
+                crc_value = rx_items[-1]
+            else:
+                # Encode with a zero-valued CRC field
+                self.fields[self.crc_value_name] = defn['encode'](0)
+                pre_crc = cbor2.dumps(self.build())
+                # Restore old value
+                self.fields[self.crc_value_name] = crc_value
             crc_int = defn['func'](pre_crc)
             valid = crc_value == defn['encode'](crc_int)
-            # Restore old value
-            self.fields[self.crc_value_name] = crc_value
 
         return valid
 
